@@ -36,7 +36,7 @@ class InferHooks:
         short = name.split('.')[-1]
         if recv is None and name in ('carries', 'finite', 'zeroed') and len(args) == 1:
             return E.BoolV(pred(eng, name, args[0]))
-        if short == 'zeros' and recv is not None:
+        if short == 'zeros' and (recv is not None or name in ('CliqueVector.zeros', 'Factor.zeros')):
             o = E.Obj(eng.fresh('zeros', V), cls='Factor', ghost={'finite': True})
             st.assume(pred(eng, 'finite', o))
             return o
@@ -144,10 +144,21 @@ IG = dict(COMMON,
 
 REG = {'._setup': SETUP_CALLEE}
 
+# The callee contract above, checked on _setup's own body (known-total path; the total-estimation loop does not touch the
+# potentials): the potentials of the model it installs carry the structural zeros on the cold AND the warm-start path.
+SETUP_ZEROS = dict(
+    attr_types={**ATTR, ('FactoredInference', 'model'): 'obj:GraphicalModel'},
+    pure={'sorted': 'seq:obj', 'set': 'obj', 'GraphicalModel': 'obj:GraphicalModel', 'defaultdict': 'obj', '.size': 'obj', 'hasattr': 'bool', 'list': 'obj'},
+    mutators={'.combine': _combine, '.append': None}, division='abort',
+    params=dict(self='obj:FactoredInference', measurements='seq:obj', total='obj:'),
+    requires=['total is not None', 'self.backend != "torch"'],
+    ensures={'C10:installed-potentials-carry-structural-zeros': 'carries(self.model.potentials)'})
+
 FUNCTIONS = [
     ('FactoredInference.mirror_descent', MD, REG),
     ('FactoredInference.dual_averaging', RDA, REG),
     ('FactoredInference.interior_gradient', IG, REG),
+    ('FactoredInference._setup', SETUP_ZEROS, {}),
 ]
 
 
